@@ -639,12 +639,20 @@ def eval_readded(item):
     # cache the masks the way users do: encode a first tree over all taxa
     spec0 = {"shape": lst(shapes_exact(n)[0]), "leaves": LABELS[:n], "rooted": rooted, "lens": None, "ns": None}
     build(spec0, ns=ns).encode_bipartitions()
-    for i in readd:
-        ns.remove_taxon(taxa[i])
-    for i in readd:
-        ns.add_taxon(taxa[i])
-        bit[taxa[i].label] = k
-        k += 1
+    if item.get("via") == "clear":
+        # the namespace is emptied and the SAME Taxon objects come back (those named last): the counter goes on, no bit is reused
+        ns.clear()
+        for i in [j for j in range(n) if j not in readd] + list(readd):
+            ns.add_taxon(taxa[i])
+            bit[taxa[i].label] = k
+            k += 1
+    else:
+        for i in readd:
+            ns.remove_taxon(taxa[i])
+        for i in readd:
+            ns.add_taxon(taxa[i])
+            bit[taxa[i].label] = k
+            k += 1
     tree = build({"shape": lst(shape), "leaves": LABELS[:n], "rooted": rooted, "lens": None, "ns": None}, ns=ns)
     fails = []
     try:
@@ -667,7 +675,8 @@ def eval_readded(item):
 
 
 def _w_readded(item):
-    return ("n=%d readd=%s %s %s" % (item["n"], "".join(LABELS[i] for i in item["readd"]), "R" if item["rooted"] else "U", item["shape"]), item["n"], eval_readded(item))
+    return ("n=%d readd=%s%s %s %s" % (item["n"], "".join(LABELS[i] for i in item["readd"]), "/clear" if item.get("via") == "clear" else "",
+                                       "R" if item["rooted"] else "U", item["shape"]), item["n"], eval_readded(item))
 
 
 # ============================================================================ driver
@@ -823,6 +832,8 @@ def t2(ctx):
                 for readd in itertools.combinations(range(n), r):
                     for rooted in (True, False):
                         items.append({"n": n, "readd": list(readd), "rooted": rooted, "shape": lst(shape)})
+                        if len(readd) == 1:
+                            items.append({"n": n, "readd": list(readd), "rooted": rooted, "shape": lst(shape), "via": "clear"})
     for item, (key, n, fails) in zip(items, pmap(_w_readded, items, chunksize=8)):
         ctx.case(sc, key, nontrivial=True, sample=key)
         for mon, detail in fails:
